@@ -16,6 +16,7 @@ from flowfilter.help.
 """
 from __future__ import annotations
 
+import gc
 import re
 
 from mitmproxy import flowfilter
@@ -24,7 +25,7 @@ from mitmproxy.test import tflow
 from mitmproxy.test import tutils
 
 from vmc import par
-from vmc.tally import Tally
+from vmc.tally import HarnessError, Tally
 
 META = {
     "level": "exploration",
@@ -90,12 +91,6 @@ def make_flows():
     f.is_replay = "request"
     fl.append(("http-marked-replayed", f))
     return fl
-
-
-FLOW_DESC = {
-    # name: (kind, method, url, host, status, request header lines, response header lines, request body, response body,
-    #        error, marked, replay, websocket)
-}
 
 
 def describe(name, f):
@@ -478,21 +473,62 @@ def chunk(cases):
     return t
 
 
-def tree_cases(full_depth, core_sets):
-    """full alphabet to depth full_depth, then (n_atoms, depth) extensions over the first n atoms"""
-    seen = set()
+def spine(atom_ids, depth):
+    """trees of depth exactly `depth` with one deep branch: !T, op(T, atom), op(atom, T) for T of depth depth-1"""
+    atom_ids = list(atom_ids)
+    shallower = {repr(x) for x in trees(atom_ids, depth - 2)} if depth > 2 else set()
+    deep = [x for x in trees(atom_ids, depth - 1) if repr(x) not in shallower]
     out = []
+    for x in deep:
+        out.append(["!", x])
+        for op in ("&", "|", "j"):
+            for a in atom_ids:
+                out.append([op, x, a])
+                out.append([op, a, x])
+    return out
 
-    def add(ts):
+
+def equivalent(t1, t2):
+    """truth-table equivalence under the documented semantics (used to validate the renderer: two trees may only
+    share a rendering if they mean the same)"""
+    ids = sorted(atoms_in(t1, set()) | atoms_in(t2, set()))
+    for bits in range(1 << len(ids)):
+        truth = {a: bool(bits >> i & 1) for i, a in enumerate(ids)}
+        if ref_tree(t1, truth) != ref_tree(t2, truth):
+            return False
+    return True
+
+
+def tree_cases(full_depth, core_sets, spines):
+    """-> [(tree, style)] with pairwise distinct rendered text, simplest first.
+    full alphabet to depth full_depth, (n_atoms, depth) extensions over the first n atoms in all styles,
+    (n_atoms, depth, styles) one-deep-branch extensions"""
+    seen = set()
+    tl = []
+
+    def add(ts, styles):
         for tr in ts:
-            k = repr(tr)
+            k = (repr(tr), styles)
             if k not in seen:
                 seen.add(k)
-                out.append(tr)
-    add(trees(range(len(TREE_ATOMS)), full_depth))
+                tl.append((tr, styles))
+    add(trees(range(len(TREE_ATOMS)), full_depth), tuple(STYLES))
     for n, depth in core_sets:
-        add(trees(range(n), depth))
-    return out
+        add(trees(range(n), depth), tuple(STYLES))
+    for n, depth, styles in spines:
+        add(spine(range(n), depth), tuple(styles))
+    by_text = {}
+    out = []
+    for tr, styles in tl:
+        for st in styles:
+            text, _ = render(tr, st)
+            other = by_text.get(text)
+            if other is None:
+                by_text[text] = tr
+                out.append((tr, st))
+            elif other is not tr and repr(other) != repr(tr) and not equivalent(other, tr):
+                raise HarnessError("renderer is ambiguous: %r stands for %r and %r" % (text, other, tr))
+    return out, len({repr(tr) for tr, _ in tl})
 
 
 def paren_depth(text):
@@ -507,25 +543,29 @@ def paren_depth(text):
 
 
 def run(ctx):
-    core = ctx.pick([(3, 3)], [(5, 3)])
+    core = ctx.pick([(3, 3)], [(4, 3)])
+    spines = ctx.pick([], [(2, 4, ("min",))])
     ctx.bounds = {
         "atoms_sweep": "%d unary operators, %d regex operators x %d regexes x allowed quoting forms, ~c x %d codes" % (
             len(UNARY), len(REXOPS), len(REGEXES), len(CODES)),
         "tree_operators": ["!", "&", "|", "juxtaposition", "( )"],
         "trees_full_alphabet": "all trees of depth <= 2 over %d atoms %r" % (len(TREE_ATOMS), [a[2] for a in TREE_ATOMS]),
         "trees_core": ["all trees of depth <= %d over the first %d atoms" % (d, n) for n, d in core],
+        "trees_one_deep_branch": ["depth %d over the first %d atoms (!T, T op atom, atom op T), renderings %s" % (d, n, list(st))
+                                  for n, d, st in spines],
         "renderings": STYLES,
         "flows": [n for n, _ in make_flows()],
     }
     cases = [("atom", a) for a in atom_cases()]
     n_atoms = len(cases)
-    tl = tree_cases(2, core)
-    tcases = [("tree", (tr, st)) for tr in tl for st in STYLES]
-    # cheap cases first is the canonical order; deal the expensive (parenthesised) ones evenly
-    cases += tcases
-    ctx.log("cases: %d atoms, %d trees x %d renderings" % (n_atoms, len(tl), len(STYLES)))
+    tcases, ntrees = tree_cases(2, core, spines)
+    cases += [("tree", c) for c in tcases]
+    ctx.log("cases: %d atoms, %d trees -> %d distinct rendered expressions" % (n_atoms, ntrees, len(tcases)))
     ctx.info["atom_cases"] = n_atoms
-    ctx.info["trees"] = len(tl)
+    ctx.info["trees"] = ntrees
+    ctx.info["rendered_expressions"] = len(tcases)
+    gc.collect()
+    gc.freeze()  # keeps the forked workers from copying the parent's heap on every collection
     par.pmap_tally(chunk, cases, ctx.tally, nchunks=par.NPROC * 8)
 
 
